@@ -111,7 +111,7 @@ func runAEOne(p *Prog, e *Eco) *aeEcoResult {
 					continue
 				}
 				seenLaw[f.law] = true
-				fmt.Fprintf(os.Stderr, "   finding %s (%d worlds, sig %v): %s [%.400s]\n", f.law, res.nfail[f.law], keysOf(res.sig[f.law]), f.detail, f.world)
+				fmt.Fprintf(os.Stderr, "   finding %s (%d worlds, sig %v): %s [%.400s]\n", f.law, res.nfail[f.law], res.sig[f.law].cores, f.detail, f.world)
 			}
 		}
 	}
@@ -185,15 +185,10 @@ func rulePreorder(p *Prog, r *Report) {
 		}
 		for _, law := range []string{"reflexive", "antisymmetric", "range", "transitive"} {
 			if res.nfail[law] > 0 {
-				sig := strings.Join(keysOf(res.sig[law]), ",")
-				var w aeFinding
-				for _, f := range res.findings {
-					if f.law == law {
-						w = f
-						break
-					}
+				cs := res.sig[law]
+				for _, i := range cs.sorted() {
+					r.Bad("R-PREORDER", fmt.Sprintf("%s: %s {%s}", fk, law, strings.Join(cs.cores[i], ",")), pos, fmt.Sprintf("%s fails in %d abstract worlds in which x, y, z differ (at least) on these terms, e.g. %s", law, cs.n[i], cs.ex[i]))
 				}
-				r.Bad("R-PREORDER", fmt.Sprintf("%s: %s {%s}", fk, law, sig), pos, fmt.Sprintf("%s: %s in %d abstract worlds, e.g. [%s]", law, w.detail, res.nfail[law], w.world))
 			} else if law != "range" {
 				r.Ok("R-PREORDER", fk+": "+law, pos, fmt.Sprintf("holds on all %d abstract worlds%s", res.worlds[law], cond))
 			}
@@ -214,8 +209,11 @@ func rulePreorder(p *Prog, r *Report) {
 			}
 			sort.Strings(laws)
 			for _, law := range laws {
-				r.Bad("R-PREORDER", fmt.Sprintf("%s: loop %s %s {%s}", fk, shortLoopID(id), law, strings.Join(keysOf(s.lawSig[law]), ",")), pos,
-					fmt.Sprintf("the position-wise relation of the zip loop is not a total preorder (so its lexicographic extension is not): %s in %d abstract position worlds, e.g. %s", law, s.lawN[law], s.lawFirst[law]))
+				cs := s.lawSig[law]
+				for _, i := range cs.sorted() {
+					r.Bad("R-PREORDER", fmt.Sprintf("%s: loop %s %s {%s}", fk, shortLoopID(id), law, strings.Join(cs.cores[i], ",")), pos,
+						fmt.Sprintf("the position-wise relation of the zip loop is not a total preorder (so its lexicographic extension is not): %s in %d abstract position worlds that differ (at least) on these terms, e.g. %s", law, cs.n[i], cs.ex[i]))
+				}
 			}
 		}
 		for _, id := range res.loopsOK {
